@@ -27,7 +27,7 @@ def run(res):
 
 
 def _lean(res):
-    ok, log = common.regen_tables()
+    ok, log = common.regen_tables("C02")
     if not ok:
         res.violation("translator", "extraction of the layout constants failed (LayoutConsts): the model's constants are no longer tied to the source",
                       log[-3000:], found_input=False)
